@@ -417,7 +417,14 @@ impl FormatSpec {
                 };
                 let inter = self.get_separator_interval().try_into().unwrap();
                 let magnitude_len = magnitude_str.len();
-                let width = self.width.unwrap_or(magnitude_len) as i32 - prefix.len() as i32;
+                // Only zero padding (`0` flag, i.e. fill '0' with '=' alignment) extends the digits up to
+                // the width; any other fill is added around the grouped number afterwards.
+                let zero_padded = self.fill == Some('0') && self.align == Some(FormatAlign::AfterSign);
+                let width = if zero_padded {
+                    self.width.unwrap_or(magnitude_len) as i32 - prefix.len() as i32
+                } else {
+                    magnitude_len as i32
+                };
                 let disp_digit_cnt = cmp::max(width, magnitude_len as i32);
                 FormatSpec::add_magnitude_separators_for_char(
                     magnitude_str,
